@@ -192,7 +192,7 @@ fn rows_str(r: Result<grafeo_engine::database::QueryResult, grafeo_common::utils
         Ok(q) => {
             let mut rows: Vec<String> = q.rows.iter().map(|r| r.iter().map(vs).collect::<Vec<_>>().join(",")).collect();
             rows.sort();
-            format!("{rows:?}")
+            rows.join(" | ")
         }
         Err(e) => format!("ERR({})", vcore::truncate(&e.to_string(), 60)),
     }
@@ -214,7 +214,7 @@ fn names<'a>(g: &'a MGraph, f: impl Fn(&MNode) -> bool) -> Vec<String> {
 
 /// Expected canonical answer of probe `p` on model graph `g`.
 fn expected(p: usize, g: &MGraph) -> String {
-    let q = |v: Vec<String>| format!("{v:?}");
+    let q = |v: Vec<String>| v.join(" | ");
     match PROBES[p] {
         "label-scan" | "cypher-label-scan" | "gremlin-label-scan" | "graphql-label-scan" => q(names(g, |n| n.labels.contains("G"))),
         "unlabelled-scan" => q(names(g, |_| true)),
@@ -320,18 +320,16 @@ fn run_probe(p: usize, s: &Session) -> String {
                     None => format!("{id}:none"),
                 })
                 .collect();
-            format!("{v:?}")
+            v.join(" | ")
         }
-        "node_exists" => format!("{:?}", (0..6u64).map(|id| format!("{id}:{}", s.node_exists(NodeId::new(id)))).collect::<Vec<_>>()),
-        "get_edge" => format!(
-            "{:?}",
-            (0..4u64)
-                .map(|id| match s.get_edge(EdgeId::new(id)) {
-                    Some(e) => format!("{id}:{}>{}:{}", e.src.as_u64(), e.dst.as_u64(), e.edge_type),
-                    None => format!("{id}:none"),
-                })
-                .collect::<Vec<_>>()
-        ),
+        "node_exists" => (0..6u64).map(|id| format!("{id}:{}", s.node_exists(NodeId::new(id)))).collect::<Vec<_>>().join(" | "),
+        "get_edge" => (0..4u64)
+            .map(|id| match s.get_edge(EdgeId::new(id)) {
+                Some(e) => format!("{id}:{}>{}:{}", e.src.as_u64(), e.dst.as_u64(), e.edge_type),
+                None => format!("{id}:none"),
+            })
+            .collect::<Vec<_>>()
+            .join(" | "),
         "neighbors-out" => {
             let v: Vec<String> = [A, B]
                 .iter()
@@ -341,7 +339,7 @@ fn run_probe(p: usize, s: &Session) -> String {
                     format!("{n}:{o:?}")
                 })
                 .collect();
-            format!("{v:?}")
+            v.join(" | ")
         }
         "neighbors-in" => {
             let v: Vec<String> = [A, B]
@@ -352,12 +350,12 @@ fn run_probe(p: usize, s: &Session) -> String {
                     format!("{n}:{o:?}")
                 })
                 .collect();
-            format!("{v:?}")
+            v.join(" | ")
         }
         "get_nodes_batch" => {
             let ids: Vec<NodeId> = (0..4u64).map(NodeId::new).collect();
             let r = s.get_nodes_batch(&ids);
-            format!("{:?}", r.iter().enumerate().map(|(i, n)| format!("{i}:{}", n.as_ref().map_or("none".to_string(), |n| n.get_property("name").map(vs).unwrap_or_else(|| "?".into())))).collect::<Vec<_>>())
+            r.iter().enumerate().map(|(i, n)| format!("{i}:{}", n.as_ref().map_or("none".to_string(), |n| n.get_property("name").map(vs).unwrap_or_else(|| "?".into())))).collect::<Vec<_>>().join(" | ")
         }
         "sparql-all" => rows_str(s.execute_sparql("SELECT ?s ?p ?o WHERE { ?s ?p ?o }")),
         "sparql-bound" => rows_str(s.execute_sparql("SELECT ?s WHERE { ?s <http://ex.org/p> \"x\" }")),
@@ -481,11 +479,20 @@ impl Model {
                     Some((a, w)) => (a, wname(w)),
                     None => ("unexplained", "-"),
                 };
+                // an unexplained mismatch is identified by what exactly is surplus / missing in the answer
+                let diff = if cause.is_none() {
+                    let (g_rows, w_rows): (Vec<&str>, Vec<&str>) = (got.split(" | ").filter(|x| !x.is_empty()).collect(), want.split(" | ").filter(|x| !x.is_empty()).collect());
+                    let extra: Vec<&str> = g_rows.iter().filter(|x| !w_rows.contains(x)).copied().collect();
+                    let missing: Vec<&str> = w_rows.iter().filter(|x| !g_rows.contains(x)).copied().collect();
+                    vcore::truncate(&format!("+{extra:?}-{missing:?}"), 120)
+                } else {
+                    "-".to_string()
+                };
                 let c02_class = matches!(anomaly, "sees-rolled-back" | "misses-committed");
                 let report = if self.prop == "C02" { c02_class || anomaly == "unexplained" } else { !c02_class };
                 if report {
                     out.push((
-                        sigv(&[("layer", "session"), ("anomaly", anomaly), ("write", w), ("probe", PROBES[p]), ("reader", status), ("ending", ending)]),
+                        sigv(&[("layer", "session"), ("anomaly", anomaly), ("write", w), ("probe", PROBES[p]), ("reader", status), ("ending", ending), ("diff", &diff)]),
                         format!("session {s} ({status}) probe {}: got {got}, expected {want}", PROBES[p]),
                     ));
                 }
